@@ -76,7 +76,8 @@ def string_strategy(params, for_spec=False, wild=False):
     alpha = WILD_ALPHABET if wild else SAFE_ALPHABET
     cap = hi if hi is not None else max(lo + 12, 12)
     base = st.text(alpha, min_size=lo, max_size=cap)
-    fixed = [s for s in INTERESTING if lo <= len(s) <= cap]
+    fixed = [s for s in INTERESTING + (['a    b', 'x' + ' ' * 8 + 'y', 'tail\x85', 'a\x0cb', 'a\u2028b'] if wild else [])
+             if lo <= len(s) <= cap]
     bound = []
     if hi is not None:
         bound.append(st.text(alpha, min_size=hi, max_size=hi))
